@@ -176,7 +176,7 @@ class ModelRegistry:
         replaces = []
         replaces_ids = set()
         for group in groups:
-            model_meta = self._merge(generator, *group)
+            model_meta = self._merge(generator, *sorted(group, key=lambda model: (len(model.index), model.index)))
             generator.optimize_type(model_meta)
             replaces_ids.add(model_meta.index)
             replaces.append((model_meta, group))
